@@ -28,6 +28,11 @@ size_t symx_file_size(const char* name);                            /* (size_t)-
 size_t symx_file_get(const char* name, void* buf, size_t cap);
 void symx_interfere(int on);
 void symx_omp_permute(int on);    /* on: iterations of OpenMP dynamic-schedule loops (<= 3) are run in every order (fork) */        /* on: fread sees a stream position moved arbitrarily by "another thread" */
+/* lazy-initialisation races: record the stores an initialiser makes to globals, then restart from the state in which only the
+ * first k of them are visible (another thread is k stores into the initialiser) */
+void symx_store_log_begin(void);
+int  symx_store_log_end(void);          /* number of recorded stores */
+void symx_store_prefix(int k);
 #ifdef __cplusplus
 }
 #endif
